@@ -156,6 +156,24 @@ def coq_codes(tag, ctype, fn, terms, shard=300):
     return out
 
 
+def g_class_cluster(r):
+    """name-collision clusters: case variants of one base name plus classes that already carry the
+    numeric suffixes the handler will try (_1, _2, ...), all in ONE namespace (so that the slug of the
+    qualified name collides too), with fillers in other namespaces"""
+    base = r.choice(["a", "ab", "x_y", "Type", "value", "none", "b1", "q"])
+    ns = r.choice(["urn:x", "urn:x", "http://a.b/c", "urn:A", ""])
+    variants = list(dict.fromkeys([base, base.upper(), base.capitalize(), base + "_", base.replace("_", "-"), base.swapcase()]))
+    names = r.sample(variants, r.randint(2, min(4, len(variants))))
+    for k in r.sample([1, 2, 3], r.randint(1, 3)):
+        names.append(r.choice([base, base.upper(), base.capitalize()]) + r.choice(["_", "", "-"]) + str(k))
+    out = [{"ns": ns, "name": n, "element": r.random() < 0.3, "abstract": r.random() < 0.15} for n in names]
+    for _ in range(r.randint(0, 2)):
+        out.append({"ns": r.choice(["urn:y", "", "urn:x"]), "name": r.choice(["other", base, base + "_1", "z"]), "element": r.random() < 0.4,
+                    "abstract": False})
+    r.shuffle(out)
+    return out
+
+
 # ---------------------------------------------------------------------------- term printers
 def obs_sres(rs):
     if "ok" in rs:
@@ -186,6 +204,11 @@ WITNESS_ATTRS = [
     [{"name": "-1", "tag": "Enumeration", "ns": None}, {"name": "value_minus_1", "tag": "Enumeration", "ns": None}],
 ]
 WITNESS_CLASSES = [
+    # numeric suffix must skip an existing a_1, whether classes are compared by name or by qualified name
+    (False, [{"ns": "urn:x", "name": "a", "element": False, "abstract": False}, {"ns": "urn:x", "name": "A", "element": False, "abstract": False},
+             {"ns": "urn:x", "name": "a_1", "element": False, "abstract": False}, {"ns": "urn:y", "name": "other", "element": False, "abstract": False}]),
+    (True, [{"ns": "urn:x", "name": "a", "element": False, "abstract": False}, {"ns": "urn:x", "name": "A", "element": False, "abstract": False},
+            {"ns": "urn:x", "name": "a_1", "element": False, "abstract": False}, {"ns": "urn:x", "name": "A_2", "element": True, "abstract": False}]),
     (True, [{"ns": "", "name": "None", "element": False, "abstract": False},
             {"ns": "", "name": "NoneType", "element": False, "abstract": False}]),
     (True, [{"ns": "", "name": "A", "element": False, "abstract": True}, {"ns": "", "name": "a", "element": False, "abstract": False},
@@ -490,6 +513,10 @@ def pipeline_oracle(ck: Check):
         ("json", {"s.json": '{"a\\"b": {"x": 1}}'}, {}), ("xsd", {"s.xsd": W_XSD_BYTES}, {}),
         ("xsd", {"s.xsd": W_XSD_F13}, {}), ("xsd", {"s.xsd": W_XSD_F16}, {}), ("xsd", {"s.xsd": W_XSD_F20}, {}),
         ("xsd", {"s.xsd": W_XSD_F14}, {"generic_collections": True}),
+        ("xsd", {"one.xsd": W_XSD_CLUSTER, "two.xsd": W_XSD_OTHER}, {}),
+        ("xsd", {"one.xsd": W_XSD_CLUSTER, "two.xsd": W_XSD_OTHER}, {"structure_style": "namespaces"}),
+        ("xsd", {"one.xsd": W_XSD_CLUSTER, "two.xsd": W_XSD_OTHER}, {"structure_style": "clusters"}),
+        ("xsd", {"one.xsd": W_XSD_CLUSTER}, {"structure_style": "single-package"}),
     ]
     for kind, src, opt in fixed:
         jobs.append({"sources": src, "options": opt, "kind": kind, "features": ["witness"]})
@@ -553,6 +580,13 @@ W_XSD_F20 = _xsd('<xs:simpleType name="U"><xs:union memberTypes="xs:hexBinary xs
                  '</xs:simpleContent></xs:complexType></xs:element>')
 W_XSD_F14 = _xsd(_ct("Sequence", ["x"]) + '<xs:complexType name="T"><xs:sequence><xs:element name="y" type="xs:string" maxOccurs="unbounded"/>'
                  '<xs:element name="s" type="Sequence"/></xs:sequence></xs:complexType>')
+
+
+_CT = '<xs:complexType name="%s"><xs:sequence><xs:element name="p" type="xs:string"/></xs:sequence></xs:complexType>'
+W_XSD_CLUSTER = ('<xs:schema xmlns:xs="http://www.w3.org/2001/XMLSchema" targetNamespace="urn:x" xmlns="urn:x" elementFormDefault="qualified">'
+                 + _CT % "a" + _CT % "A" + _CT % "a_1" + '<xs:element name="root"><xs:complexType><xs:sequence><xs:element name="x" type="a"/>'
+                 '<xs:element name="y" type="A"/><xs:element name="z" type="a_1"/></xs:sequence></xs:complexType></xs:element></xs:schema>')
+W_XSD_OTHER = '<xs:schema xmlns:xs="http://www.w3.org/2001/XMLSchema" targetNamespace="urn:y">' + _CT % "other" + "</xs:schema>"
 
 
 def run(ck: Check):
@@ -623,6 +657,9 @@ def run(ck: Check):
         conv = g_conv(r) if r.random() < 0.3 else {}
         add({"op": "rename_classes", "use_names": r.random() < 0.6, "classes": g_class_list(r), "conv": conv},
             kind="rename_classes", conv=conv)
+    for _ in range(160 * N):
+        add({"op": "rename_classes", "use_names": r.random() < 0.4, "classes": g_class_cluster(r), "conv": {}},
+            kind="rename_classes", conv={})
 
     res = run_impl("impl_c07.py", ops, timeout=900, with_shims=True)
     ck.cov["evaluations"] = len(ops)
@@ -791,8 +828,26 @@ def run(ck: Check):
     for it in corr_bad:
         ck.failure("corr-rename-classes", f"model and implementation disagree on RenameDuplicateClasses({it[1]}): impl={it[2]['ok']}", {"op": it[1], "impl": it[2]})
     corr_bad_ids = {it[0] for it in corr_bad}
-    dup_items = [it for it in items if it[1]["use_names"] and len(set(it[2]["class_names"])) != len(it[2]["class_names"])
-                 and it[0] not in corr_bad_ids]
+    def _same_module_dups(it):
+        # compared by name: every class; compared by qualified name: classes of one namespace share a module
+        if it[1]["use_names"]:
+            return len(set(it[2]["class_names"])) != len(it[2]["class_names"])
+        seen = set()
+        for q, cn in zip(it[2]["qnames"], it[2]["class_names"]):
+            key = (q.split("}")[0] if q.startswith("{") else "", cn)
+            if key in seen:
+                return True
+            seen.add(key)
+        return False
+
+    dup_items = [it for it in items if it[1]["use_names"] and _same_module_dups(it) and it[0] not in corr_bad_ids]
+    for it in items:
+        if not it[1]["use_names"] and it[0] not in corr_bad_ids and _same_module_dups(it):
+            # the model agrees with the implementation here; judge the slugs of the qualified names directly
+            slugs = [re.sub(r"[^a-z0-9]", "", q.lower()) for q in it[2]["qnames"]]
+            if len(set(slugs)) != len(slugs) and not any(n.endswith("_abstract") for n in it[2]["ok"]):
+                ck.failure("dup-class-numeric-suffix-not-fresh", f"classes {it[1]['classes']} -> {it[2]['qnames']}: two qualified names with one slug",
+                           {"op": it[1], "impl": it[2]})
     if dup_items:
         cterms = [f"({conv_term(it[3]['conv'])}, {lstr(it[2]['ok'])}, {lstr(it[2]['class_names'])})" for it in dup_items]
         codes = coq_codes("dupclasses", "list (str * str) * list str * list str", "classify_dup_classes", cterms)
